@@ -1257,7 +1257,10 @@ class Recompiler:
                     tp.name == 'long double')
         #
         size_of_a = max(len(tp.args)*8, 8)
-        if may_need_128_bits(tp.result):
+        if may_need_128_bits(tp.result) or (
+                isinstance(tp.result, model.PrimitiveType) and
+                tp.result.name == '_cffi_double_complex_t'):
+            # the result is written into the same buffer: 16 bytes
             size_of_a = max(size_of_a, 16)
         if isinstance(tp.result, model.StructOrUnion):
             size_of_a = 'sizeof(%s) > %d ? sizeof(%s) : %d' % (
